@@ -398,12 +398,12 @@ func (n NaturalLanguageValues) MarshalJSON() ([]byte, error) {
 		if !empty {
 			b.Write([]byte{','})
 		}
-		if v, err := val.MarshalJSON(); err == nil && len(v) > 0 {
-			l, err := b.Write(v)
-			if err == nil && l > 0 {
-				empty = false
-			}
-		}
+		// NOTE: inside a language map every entry needs a key, the untagged one is written under its own tag ("-"),
+		// which is what the decoder reads back as NilLangRef
+		stringBytes(&b, []byte(val.Ref), false)
+		b.Write([]byte{':'})
+		stringBytes(&b, val.Value, false)
+		empty = false
 	}
 	b.Write([]byte{'}'})
 	if !empty {
